@@ -511,27 +511,47 @@ def arg_check_rule(ctx):
     p = ctx.p
     dist = _dist(p)
     res = RuleResult("ARG-CHECK", "log_prob rejects a context with a different row count (ValueError) and sample rejects a non-positive / non-integer count (TypeError) before anything is computed")
-    # log_prob
+    # log_prob: evaluated (nfstatic/shapeeval.py) with no context, a context of the same number of rows
+    # and one with a different number of rows; only the last must end in ValueError, and before
+    # _log_prob is reached (the evaluator stops at the first raising path in statement order)
+    from ..axes import Mismatch as _Mis, Unknown as _Unk
+    from ..shapeeval import ShapeEval, RaisesExc
+
     lp = dist.methods.get("log_prob")
-    order = list(walk_pc(lp.node.body))
-    call_idx = None
-    guard_idx = None
-    for i, (st, pc, ng) in enumerate(order):
-        if isinstance(st, ast.Raise):
-            atoms = pc_atoms(pc)
-            if _exc_name(st) == "ValueError" and ("context.shape[0] != inputs.shape[0]" in atoms or "inputs.shape[0] != context.shape[0]" in atoms or "context.shape[0] != inputs.shape[0]" in {a for a in atoms}):
-                guard_idx = i
-                if "context is not None" not in atoms:
-                    res.fail(Finding("ARG-CHECK", lp.module, lp.qualname, st, "the row-count check dereferences the context without first testing it for None"))
-        if any(isinstance(n, ast.Call) and attr_chain(n.func) == "self._log_prob" for n in ast.walk(st)) and not isinstance(st, ast.If):
-            if call_idx is None:
-                call_idx = i
-    if guard_idx is None:
-        res.fail(Finding("ARG-CHECK", lp.module, lp.qualname, lp.node, "no `raise ValueError` under inputs.shape[0] != context.shape[0]", construct="row-count guard of log_prob"))
-    elif call_idx is None or guard_idx > call_idx:
-        res.fail(Finding("ARG-CHECK", lp.module, lp.qualname, lp.node, "the row-count guard does not precede the evaluation of _log_prob", construct="row-count guard of log_prob"))
+    if lp is None:
+        raise AnalysisIncomplete("Distribution.log_prob missing")
+    lparams = [a for a, _ in lp.params()]
+    xin, cxn = lparams[0], (lparams[1] if len(lparams) > 1 else "context")
+    x_lay = ((("n", "N", False),), (("d", "D", False),))
+    same = ((("m", "N", False),), (("e", "E", False),))
+    other = ((("m", "M", False),), (("e", "E", False),))
+    verdicts = {}
+    for tag, env, pyenv in (("without a context", {xin: x_lay}, {cxn: None}), ("with a context of as many rows", {xin: x_lay, cxn: same}, {}), ("with a context of a different number of rows", {xin: x_lay, cxn: other}, {})):
+        ev = ShapeEval(env, pyenv, p, lp.module)
+        try:
+            ev.run(lp)
+            verdicts[tag] = "returns"
+        except RaisesExc as ex:
+            verdicts[tag] = "raises " + ex.exc
+        except _Unk as u:
+            verdicts[tag] = "returns" if getattr(u, "past_guards", False) else "undecided: %s" % u
+        except _Mis as m:
+            verdicts[tag] = "undecided: %s" % m.msg
+    und = [v for v in verdicts.values() if v.startswith("undecided")]
+    if und:
+        res.undecide("Distribution.log_prob", und[0][:120])
     else:
-        res.ok("log_prob: ValueError under `context is not None and inputs.shape[0] != context.shape[0]` before _log_prob")
+        bad = []
+        if verdicts["without a context"] != "returns":
+            bad.append("without a context it %s" % verdicts["without a context"])
+        if verdicts["with a context of as many rows"] != "returns":
+            bad.append("with a context of as many rows as the inputs it %s" % verdicts["with a context of as many rows"])
+        if verdicts["with a context of a different number of rows"] != "raises ValueError":
+            bad.append("with a context of a different number of rows it %s (must raise ValueError before _log_prob is evaluated)" % verdicts["with a context of a different number of rows"])
+        if bad:
+            res.fail(Finding("ARG-CHECK", lp.module, lp.qualname, lp.node, "log_prob: " + "; ".join(bad), construct="row-count guard of log_prob"))
+        else:
+            res.ok("log_prob: ValueError exactly when a context with another number of rows is given, before _log_prob")
     # sample: partial evaluation with every kind of invalid count -- the call must end in a
     # TypeError before the sampler is invoked (and accept the valid counts, BATCH-COUNT)
     from ..peval import PEval, Obj, Sym, SymFn, Undecided as PUndecided, Raises as PRaises
